@@ -437,6 +437,7 @@ def execute(case, se, out, trace):
         if name == "rev":
             handle = "whole"
             snap_out = None
+            began_with_move = type(P[0]).__name__ == "Move"
             try:
                 r = P.reverse()
             except Exception as e:
@@ -444,6 +445,8 @@ def execute(case, se, out, trace):
             model = model_rev_all(model)
             views = None
             i = None
+            if began_with_move and len(P) and type(P[0]).__name__ != "Move":
+                raise V("structure", ["rev", "leading-move-lost"], "a path that began with a move reverses into %s, which begins with a %s: the point it starts from is only implied (d() no longer states it)" % (ob.kinds(P), type(P[0]).__name__))
         else:
             n = len(model)
             i = op[1] % n
